@@ -7,3 +7,4 @@ pub mod refs;
 pub mod corpus;
 pub mod samples;
 pub mod proj_duke;
+pub mod duke_diff;
